@@ -337,6 +337,10 @@ type serveReplayer struct {
 }
 
 func (s *serveReplayer) replay(v serveVec, rng *rand.Rand) {
+	s.r.guard(fmt.Sprintf("dispatch replay of table %v", v.T), func() map[string]any { return map[string]any{"table": v.T} }, func() { s.replayTable(v, rng) })
+}
+
+func (s *serveReplayer) replayTable(v serveVec, rng *rand.Rand) {
 	entries := make([]serveEntry, len(v.T))
 	sameOpt := true
 	for i, e := range v.T {
